@@ -285,6 +285,8 @@ func dateParse(date string) float64 {
 	if match := matchDateTimeZone.FindStringSubmatch(date); match != nil {
 		if match[2] == "Z" {
 			date = match[1] + "+0000"
+		} else if match[4] > "59" {
+			return math.NaN() // 15.9.1.15: mm of a time zone offset is 00..59
 		} else {
 			date = match[1] + match[3] + match[4]
 		}
